@@ -4,6 +4,10 @@ import (
 	"crypto/sha3"
 	"encoding/hex"
 	"math/big"
+	"os"
+	"runtime"
+	"runtime/debug"
+	"strconv"
 	"testing"
 )
 
@@ -55,3 +59,18 @@ func unhex(t testing.TB, s string) []byte {
 }
 
 func hexOf(b []byte) string { return hex.EncodeToString(b) }
+
+// TestMain: the model allocates ≈ 1 MB of short-lived big.Ints per scalar multiplication and the
+// tests are sequential, so a tiny live heap with the default GOGC/GOMAXPROCS spends most of its
+// time waking garbage-collector workers — badly so on a machine shared with other jobs.
+func TestMain(m *testing.M) {
+	gogc := 800
+	if v := os.Getenv("REFCURVE_GOGC"); v != "" {
+		gogc, _ = strconv.Atoi(v)
+	}
+	debug.SetGCPercent(gogc)
+	if runtime.GOMAXPROCS(0) > 2 {
+		runtime.GOMAXPROCS(2)
+	}
+	os.Exit(m.Run())
+}
